@@ -65,8 +65,16 @@ def check(run, P):
     _run(run, P)
     _loop(run, P)
     _handlers(run, P)
-    from . import c09, c14
+    run.rule("C03.release", "release / allocation discipline that keeps the generated "
+             "program from using freed storage (shared with C12.exit / C12.alloc / "
+             "C12.lastuse / C12.move)", minimum=12)
+    from . import c12
     from .c01 import _alias
+    _alias(run, "C12.exit", "C03.release", lambda: c12._exit(run, P))
+    _alias(run, "C12.move", "C03.release", lambda: c12._move(run, P))
+    _alias(run, "C12.alloc", "C03.release", lambda: c12._alloc(run, P))
+    _alias(run, "C12.lastuse", "C03.release", lambda: c12._lastuse(run, P))
+    from . import c09, c14
     _alias(run, "C09.total", "C03.infer", lambda: c09._total(run, P))
     run.rule_docs["C14.swallow"] = ""
     run.minimum["C14.swallow"] = 0
@@ -105,6 +113,7 @@ def _guard(run, P):
     from . import c07
     from .c01 import _alias
     _alias(run, "C07.guard", "C03.guard", lambda: c07._wrap(run, P))
+    c07.polarity(run, P, "C03.guard")
 
 
 def _cmp(run, P):
